@@ -1,5 +1,7 @@
 (* Single entry point of the executable models: function id + argument tree -> result tree. *)
 From PV Require Export Model.ComponentsX Model.EnginesX Model.SelectX Model.SimulatorX.
+From PV Require Export Model.ComponentsX Model.EnginesX Model.SelectX.
+From PV Require Model.ConnectorX.  (* C10; qualified *)
 From PV Require Model.RemoteJob.   (* not exported: its short names (step, run, status, ...) stay qualified *)
 From PV Require Export Model.LocalJobX.
 From PV Require Export Model.DetectorX.
@@ -28,5 +30,6 @@ Definition dispatch (f : Z) (x : sx) : sx :=
   | 1100 => x_tmat x | 1101 => x_inverse x | 1102 => x_decompose x | 1103 => x_flatten x | 1104 => x_regroup x
   | 1105 => x_perm_util x | 1106 => x_update_adjacent x | 1107 => x_close x
   | 1200 => x_close_to x | 1201 => x_diag_equiv x | 1202 => x_decomp x
+  | 1000 => ConnectorX.x_conn_run x | 1001 => ConnectorX.x_ps_eval_all x | 1002 => ConnectorX.x_gen_perm x
   | _ => L []
   end%Z.
